@@ -31,6 +31,22 @@ def handle (req : J) : J :=
         | .error e => .arr [.str "parse-failed", e.toJ]
         | .ok root => resJ J.text (asStr { expert := expert, level := level, width := width.getD 79 } root pfx))
      | _, _, _, _, _ => .str "bad-request")
+  | .arr [.str "from_words", ty, opt, ws, env] =>
+    (match convOfJ ty, AttrVal.ofJ opt, wordsOfJ ws, evalEnvOfJ env with
+     | some (.ok c), some opt, some ws, some env => resJ PVal.toJ (fromWords c env opt ws)
+     | some (.error e), _, _, _ => .arr [.str "type-failed", e.toJ]
+     | _, _, _, _ => .str "bad-request")
+  | .arr [.str "as_words", ty, opt, mws, v, fmt] =>
+    (match convOfJ ty, AttrVal.ofJ opt, wordsOfJ mws, PVal.ofJ v, fmtEnvOfJ fmt with
+     | some (.ok c), some opt, some mws, some v, some fmt =>
+       resJ (fun ws => J.arr (ws.map Word.toJ)) (asWords c fmt opt mws v)
+     | some (.error e), _, _, _, _ => .arr [.str "type-failed", e.toJ]
+     | _, _, _, _, _ => .str "bad-request")
+  | .arr [.str "choice_fetch", mws, opt, src, ign] =>
+    (match wordsOfJ mws, AttrVal.ofJ opt, wordsOfJ src, ign.getBool with
+     | some mws, some opt, some src, some ign =>
+       resJ (fun ws => J.arr (ws.map Word.toJ)) (choiceFetch mws opt src ign)
+     | _, _, _, _ => .str "bad-request")
   | _ => .str "bad-op"
 
 partial def loop (h : IO.FS.Stream) (out : IO.FS.Stream) : IO Unit := do
